@@ -178,6 +178,11 @@ pub fn configs() -> Vec<Value> {
         json!({"strict": {"requirePath": true}}),
         json!({"diagnostics": {"disable": ["undefined-global"], "severity": {"unused": "error"}}}),
         json!({"runtime": {"version": "Lua5.1"}}),
+        // the remaining configuration-derived state of the module index (update_config compiles it into the
+        // index, reindex must not keep what an earlier configuration compiled): module-name rewrite rules …
+        json!({"workspace": {"moduleMap": [{"pattern": "^a$", "replace": "renamed_a"}, {"pattern": "^lib(.*)$", "replace": "l$1"}]}}),
+        // … and the module-name extraction patterns (without `?/init.lua`, `b/init.lua` is module `b.init`)
+        json!({"runtime": {"requirePattern": ["?.lua"]}}),
     ]
 }
 
@@ -250,6 +255,15 @@ pub fn order_workspaces() -> Vec<(BTreeMap<String, Vec<String>>, Vec<(String, us
             ("main/r2.lua", "local r3 = require(\"r3\")\nreturn { w = r3.u }\n"),
             ("main/r3.lua", "local r1 = require(\"r1\")\nreturn { u = 1, back = r1 }\n"),
             ("main/r4.lua", "local r1 = require(\"r1\")\nlocal k = r1.v\n"),
+        ]),
+        // require ring whose members also write one global table and one global of four types: what each file
+        // sees depends on which ring member is analysed first, and that is fixed by the registration order only
+        mk(&[
+            ("main/q1.lua", "local q2 = require(\"q2\")\nlocal M = {}\nM.name = \"a\"\nfunction M.get() return q2.get() end\nfunction M.id() return 1 end\nShared = Shared or {}\nShared.a = q2.name\nCounter = 1\nreturn M\n"),
+            ("main/q2.lua", "local q3 = require(\"q3\")\nlocal M = {}\nM.name = 2\nfunction M.get() return q3.get() end\nfunction M.id() return \"b\" end\nShared = Shared or {}\nShared.b = q3.name\nCounter = \"two\"\nreturn M\n"),
+            ("main/q3.lua", "local q4 = require(\"q4\")\nlocal M = {}\nM.name = true\nfunction M.get() return q4.get() end\nfunction M.id() return true end\nShared = Shared or {}\nShared.c = q4.name\nCounter = false\nreturn M\n"),
+            ("main/q4.lua", "local q1 = require(\"q1\")\nlocal M = {}\nM.name = 1.5\nfunction M.get() return q1.id() end\nfunction M.id() return {} end\nShared = Shared or {}\nShared.d = q1.name\nCounter = {}\nreturn M\n"),
+            ("main/q5.lua", "local q1 = require(\"q1\")\nlocal r1 = q1.get()\n---@type string\nlocal s = Counter\n---@type integer\nlocal i = Shared.a\n---@type integer\nlocal j = Shared.d\n"),
         ]),
     ]
 }
